@@ -36,6 +36,8 @@ from dask_expr._expr import (
     Filter,
     PartitionsFiltered,
     Projection,
+    RenameSeries,
+    ToFrame,
     ToSeriesIndex,
     _is_strictly_increasing,
     determine_column_projection,
@@ -101,6 +103,9 @@ class ShuffleBase(Expr):
             # Move the column projection to come
             # before the abstract Shuffle
             projection = determine_column_projection(self, parent, dependents)
+            if not isinstance(projection, list):
+                # a single label (it may be an int, e.g. an unnamed Series)
+                projection = [projection]
 
             partitioning_index = self.partitioning_index
             if isinstance(partitioning_index, (str, int)):
@@ -228,6 +233,11 @@ class RearrangeByColumn(ShuffleBase):
         options = self.options
         index_shuffle = self.index_shuffle
 
+        if frame.ndim == 1:
+            # Shuffle a Series as a one-column frame so that it can be
+            # partitioned by its own name like any other column
+            frame = ToFrame(frame)
+
         # Normalize partitioning_index
 
         if isinstance(partitioning_index, str):
@@ -296,9 +306,13 @@ class RearrangeByColumn(ShuffleBase):
             self.method,
             options,
         )
-        if frame.ndim == 1:
+        if self.frame.ndim == 1:
             # Reduce back to series
-            return shuffled[index_added.columns[0]]
+            result = shuffled[frame.columns[0]]
+            if self.frame._meta.name is None:
+                # to_frame labelled the unnamed Series 0
+                result = RenameSeries(result, None)
+            return result
 
         # Drop "_partitions" column and return
         return shuffled[
